@@ -17,7 +17,9 @@ EXPLANATION = (
     'order (a strict weak order), the constructor fills 0..size-1 and sorts the full range with that comparator (a '
     'permutation); (D4) the BothEnds interleave, evaluated as index expressions for every length up to 24, is a '
     'permutation whose every prefix k holds ceil(k/2) indices from the front and floor(k/2) from the back of the '
-    'descending order. Trusted: std::sort.')
+    'descending order. The dispatch switch, being the only rejection of undefined rules, is reached on every normal path. Key '
+    'domain: value / real part / imaginary part, sign, absolute value; squared modulus and one-norm are distinct elements (not '
+    'order-equivalent to the modulus of a complex value). Trusted: std::sort.')
 ASSUMPTIONS = ['std::sort orders a range by a strict weak order and permutes it', 'std::abs is the absolute value / modulus']
 
 
